@@ -14,6 +14,7 @@ from __future__ import annotations
 import ast
 import copy
 import random
+import signal
 from typing import Any, Optional
 
 from .. import codec, core, pyz
@@ -135,6 +136,7 @@ class _Instrument:
         self.anc: list[int] = []          # indices (1-based) of the recorded ancestors of the node being visited
         self.sid = 0
         self.nloops = 0
+        self.ntry = 0
         self.alias = alias
 
     # -- syntactic facts
@@ -150,11 +152,14 @@ class _Instrument:
                     out.update(self.alias[nd.id])
         return sorted(out)
 
-    def _register(self, node: ast.AST) -> int:
+    def _register(self, node: ast.AST, pseudo: bool = False) -> int:
         self.orig.append(node)
         idx = len(self.orig)
         info = {"k": type(node).__name__, "t": ast.unparse(node), "r": self.reads(node), "ch": [], "d": [], "op": [],
-                "fn": "", "cls": [], "pats": [], "s": self.sid, "st": 0, "err": False, "pos": _pos(node)}
+                "fn": "", "cls": [], "pats": [], "s": self.sid, "st": 0, "err": False,
+                "pos": ("pseudo", 0, 0, 0, 0) if pseudo else _pos(node)}
+        if pseudo:
+            info["k"] = "OldValue"
         if isinstance(node, (ast.BinOp, ast.UnaryOp, ast.BoolOp)):
             info["op"] = [_OPS.get(type(node.op), "?")]
         elif isinstance(node, ast.Compare):
@@ -175,9 +180,11 @@ class _Instrument:
                 self.info[a - 1]["d"].append(idx)
         return idx
 
-    def new_store(self, names: list[str], reads: list[str], node_idx: int) -> int:
+    def new_store(self, names: list[str], reads: list[str], node_idx: int, via: str = "", recv: int = 0, arg: int = 0) -> int:
+        """via / recv / arg: the store updates a container (method name, "[]=", "del[]", "aug<op>"; node of the receiver or of
+        the old value of an augmented assignment; node of the first argument / right operand)"""
         self.stores.append({"names": sorted(set(n for n in names if n in LOCALS)), "r": sorted(set(reads)), "n": node_idx,
-                            "d": list(self.info[node_idx - 1]["d"]) if node_idx else []})
+                            "d": list(self.info[node_idx - 1]["d"]) if node_idx else [], "via": via, "recv": recv, "arg": arg})
         return len(self.stores)
 
     # -- expressions
@@ -196,7 +203,9 @@ class _Instrument:
             elif (isinstance(node, ast.Call) and isinstance(node.func, ast.Attribute) and node.func.attr in MUTATORS
                   and isinstance(node.func.value, ast.Name) and node.func.value.id in LOCALS):
                 base = node.func.value.id
-                info["st"] = self.new_store([base], self.reads(node), idx)
+                info["st"] = self.new_store([base], self.reads(node), idx, via="." + node.func.attr,
+                                            recv=info["ch"][0] if info["ch"] else 0,
+                                            arg=info["ch"][1] if len(info["ch"]) > 1 and node.args else 0)
             call = ast.Call(func=ast.Name(id="__rec__", ctx=ast.Load()), args=[ast.Constant(value=idx), new], keywords=[])
             return ast.copy_location(call, node)
         return self._children(node, skip_func=False)
@@ -273,22 +282,32 @@ class _Instrument:
             val = self.expr(s.value)
             names, extra = [], []
             tgts = []
+            via, recv = "", 0
             for t in s.targets:
                 nm, ex = self._target_names(t)
                 names += nm
                 extra += ex
-                tgts.append(self.expr(t))
-            k = self.new_store(names, self.reads(s.value) + extra, self._root(val))
+                tnew = self.expr(t)
+                tgts.append(tnew)
+                if isinstance(t, ast.Subscript) and isinstance(t.value, ast.Name):
+                    via, recv = "[]=", self._root(tnew.value)
+            k = self.new_store(names, self.reads(s.value) + extra, self._root(val), via, recv)
             new = ast.copy_location(ast.Assign(targets=tgts, value=val), s)
             return [new, self.mark("s", k)]
         if isinstance(s, ast.AugAssign):
-            val = self.expr(s.value)
+            pre, recv = [], 0
             names, extra = self._target_names(s.target)
             if isinstance(s.target, ast.Name):
                 extra.append(s.target.id)
-            k = self.new_store(names, self.reads(s.value) + extra, self._root(val))
+                # the old value of the target is read first (a pseudo node: it has no inferred type and is never judged)
+                old = ast.copy_location(ast.Name(id=s.target.id, ctx=ast.Load()), s.target)
+                recv = self._register(old, pseudo=True)
+                pre = [ast.Expr(value=ast.Call(func=ast.Name(id="__rec__", ctx=ast.Load()), args=[ast.Constant(value=recv), old], keywords=[]))]
+            val = self.expr(s.value)
+            k = self.new_store(names, self.reads(s.value) + extra, self._root(val), "aug" + _OPS.get(type(s.op), "?"), recv,
+                               self._root(val))
             new = ast.copy_location(ast.AugAssign(target=self.expr(s.target), op=s.op, value=val), s)
-            return [new, self.mark("s", k)]
+            return pre + [new, self.mark("s", k)]
         if isinstance(s, ast.For):
             self.nloops += 1
             L = self.nloops
@@ -313,10 +332,13 @@ class _Instrument:
             test = self.expr(s.test)
             return [ast.copy_location(ast.If(test=test, body=self.block(s.body), orelse=self.block(s.orelse)), s)]
         if isinstance(s, ast.Try):
-            body = self.block(s.body)
-            handlers = [ast.copy_location(ast.ExceptHandler(type=h.type, name=h.name, body=self.block(h.body)), h) for h in s.handlers]
-            return [ast.copy_location(ast.Try(body=body, handlers=handlers, orelse=self.block(s.orelse),
-                                              finalbody=self.block(s.finalbody)), s)]
+            self.ntry += 1
+            T = self.ntry
+            body = self.block(s.body) + [self.mark("tn", T)]
+            handlers = [ast.copy_location(ast.ExceptHandler(type=h.type or ast.Name(id="Exception", ctx=ast.Load()), name=h.name, body=[self.mark("xh", T)] + self.block(h.body)), h) for h in s.handlers]
+            final = ([self.mark("xf", T)] + self.block(s.finalbody)) if s.finalbody else []
+            return [self.mark("te", T), ast.copy_location(ast.Try(body=body, handlers=handlers, orelse=self.block(s.orelse),
+                                                                  finalbody=final), s)]
         if isinstance(s, ast.With):
             items, marks = [], []
             for it in s.items:
@@ -325,7 +347,10 @@ class _Instrument:
                 if it.optional_vars is not None:
                     names, extra = self._target_names(it.optional_vars)
                     marks.append(self.mark("s", self.new_store(names, self.reads(it.context_expr) + extra, self._root(ce))))
-            return [ast.copy_location(ast.With(items=items, body=marks + self.block(s.body, top=True)), s)]
+            self.ntry += 1
+            T = self.ntry
+            return [self.mark("te", T), ast.copy_location(ast.With(items=items, body=marks + self.block(s.body, top=True) + [self.mark("tn", T)]), s),
+                    self.mark("wq", T)]
         if isinstance(s, ast.Match):
             subj = self.expr(s.subject)
             sidx = self._root(subj)
@@ -348,7 +373,14 @@ class _Instrument:
                 cases.append(ast.match_case(pattern=c.pattern, guard=guard, body=body))
             pre = [self.mark("xs", s.lineno)] if s.lineno in self.leaving_matches else []
             return pre + [ast.copy_location(ast.Match(subject=subj, cases=cases), s)]
-        if isinstance(s, (ast.Return, ast.Expr, ast.Assert, ast.Raise, ast.Delete)):
+        if isinstance(s, ast.Delete):
+            new = self._children(s, skip_func=False)
+            out = [new]
+            for t, tnew in zip(s.targets, new.targets):
+                if isinstance(t, ast.Subscript) and isinstance(t.value, ast.Name):
+                    out.append(self.mark("s", self.new_store([t.value.id], self.reads(t), 0, "del[]", self._root(tnew.value))))
+            return out
+        if isinstance(s, (ast.Return, ast.Expr, ast.Assert, ast.Raise)):
             return [self._children(s, skip_func=False)]
         if isinstance(s, (ast.Break, ast.Continue, ast.Pass)):
             return [s]
@@ -399,10 +431,12 @@ def _too_deep(x: Any, d: int = 0) -> bool:
         return len(x) > 8 or any(_too_deep(e, d + 1) for e in x)
     if isinstance(x, dict):
         return len(x) > 8 or any(_too_deep(k, d + 1) or _too_deep(v, d + 1) for k, v in x.items())
-    if isinstance(x, str):
+    if isinstance(x, (str, bytes)):
         return len(x) > 60
     if isinstance(x, int):
         return abs(x) > 10 ** 9
+    if isinstance(x, float):
+        return abs(x) > 1e12
     return False
 
 
@@ -410,12 +444,28 @@ SKIP_T = {"k": "skip"}
 NO_OBJ = {"c": "other", "v": "other", "items": []}
 
 
+def _unorder_sets(t: Any) -> Any:
+    """SequenceValue(set, members) lists the element types of a set display in source order; a set has no order (and
+    the codec sorts the elements of a runtime set), so the type is read as set[union of the member types]"""
+    if isinstance(t, list):
+        return [_unorder_sets(x) for x in t]
+    if isinstance(t, dict):
+        t = {k: _unorder_sets(v) for k, v in t.items()}
+        if t.get("k") == "seq" and t.get("c") == "set":
+            ms = []
+            for m in t["ms"]:
+                if m["t"] not in ms:
+                    ms.append(m["t"])
+            return {"k": "generic", "c": "set", "args": [ms[0] if len(ms) == 1 else {"k": "union", "ms": ms}]}
+    return t
+
+
 def encode_inferred(value: Any) -> Optional[dict]:
     try:
         t = codec.value_to_term(value)
     except core.MachineryError:
         return None
-    return None if _has_other(t) else t
+    return None if _has_other(t) else _unorder_sets(t)
 
 
 def prepare(src: str) -> dict:
@@ -425,36 +475,67 @@ def prepare(src: str) -> dict:
         tree = ast.parse(src)
     except SyntaxError as exc:
         raise core.MachineryError(f"generated function is not valid syntax: {exc}\n{src}")
-    # Observation (no change of the checker's behaviour): which match statements did the checker find exhaustive, i.e.
-    # for which did visit_Match put the LEAVES_SCOPE marker into the scope that is current at the match statement?
+    # Observations (no change of the checker's behaviour; both wrappers call the original method and return its result):
+    # (1) which match statements did the checker find exhaustive, i.e. for which did visit_Match put the LEAVES_SCOPE
+    #     marker into the scope that is current at the match statement;
+    # (2) the value the checking phase inferred for every expression node at the time of each visit (a node inside a
+    #     comprehension over a tuple of known length or inside a finally block is visited several times: the inferred type
+    #     of the node is the union over its visits; taken at visit time because a later in-place operation on a known
+    #     list can change the object a KnownValue holds).
     from pyanalyze import name_check_visitor as ncv
     from pyanalyze.stacked_scopes import LEAVES_SCOPE
 
     leaving_matches: set[int] = set()
+    visits: dict[tuple, dict[str, Optional[dict]]] = {}
     orig_set = ncv.NameCheckVisitor._set_name_in_scope
+    orig_visit = ncv.NameCheckVisitor.visit
+    orig_composite = ncv.NameCheckVisitor.composite_from_node
+    check_state = ncv.VisitorState.check_names
+    first_line = len(src.split("\ndef f(")[0].split("\n")) + 1
 
-    def spy(self, varname, node, *a, **k):  # type: ignore[no-untyped-def]
+    def spy_set(self, varname, node, *a, **k):  # type: ignore[no-untyped-def]
         if varname == LEAVES_SCOPE and isinstance(node, ast.Match):
             leaving_matches.add(node.lineno)
         return orig_set(self, varname, node, *a, **k)
 
-    ncv.NameCheckVisitor._set_name_in_scope = spy
+    def spy_visit(self, node):  # type: ignore[no-untyped-def]
+        ret = orig_visit(self, node)
+        if self.state is check_state and isinstance(node, ast.expr) and getattr(node, "lineno", 0) >= first_line:
+            t = encode_inferred(ret)
+            visits.setdefault(_pos(node), {})[core.canon(t)] = t
+        return ret
+
+    def spy_composite(self, node):  # type: ignore[no-untyped-def]     (names, attributes, subscripts, walrus)
+        ret = orig_composite(self, node)
+        if self.state is check_state and isinstance(node, ast.expr) and getattr(node, "lineno", 0) >= first_line:
+            t = encode_inferred(ret.value)
+            visits.setdefault(_pos(node), {})[core.canon(t)] = t
+        return ret
+
+    ncv.NameCheckVisitor._set_name_in_scope = spy_set
+    ncv.NameCheckVisitor.visit = spy_visit
+    ncv.NameCheckVisitor.composite_from_node = spy_composite
     try:
         fails, visitor, checked_tree = pyz.check_source(src, annotate=True, want_visitor=True)
     except Exception as exc:  # noqa: BLE001   (a crash is a C12 matter; here the case is just unusable)
         return {"error": f"checker raised {type(exc).__name__}: {exc}"}
     finally:
         ncv.NameCheckVisitor._set_name_in_scope = orig_set
-    # inferred values by source position (the annotated nodes themselves cannot be deep-copied: their inferred
-    # values may reference the visitor)
-    by_pos: dict[tuple, Any] = {}
-    for nd in ast.walk(checked_tree.body[-1]):
-        if hasattr(nd, "inferred_value") and hasattr(nd, "lineno"):
-            by_pos[_pos(nd)] = nd.inferred_value
+        ncv.NameCheckVisitor.visit = orig_visit
+        ncv.NameCheckVisitor.composite_from_node = orig_composite
+    by_pos: dict[tuple, Optional[dict]] = {}
+    for pos, terms in visits.items():
+        ts = list(terms.values())
+        if any(t is None for t in ts):
+            by_pos[pos] = None
+        elif len(ts) == 1:
+            by_pos[pos] = ts[0]
+        else:
+            by_pos[pos] = {"k": "union", "ms": ts}
     fdef = tree.body[-1]
     inst = _Instrument(_comp_alias(fdef), leaving_matches)
     new_body = inst.block(fdef.body, top=True)
-    if inst.nloops > MAX_LOOPS:
+    if inst.nloops > MAX_LOOPS or inst.ntry > MAX_LOOPS:
         return {"error": "too many loops"}
     new_def = ast.FunctionDef(name=fdef.name, args=fdef.args, body=new_body, decorator_list=[], returns=None, type_params=[])
     module = ast.Module(body=tree.body[:-1] + [ast.copy_location(new_def, fdef)], type_ignores=[])
@@ -473,7 +554,7 @@ def prepare(src: str) -> dict:
             inferred.append(None)
             why.append("not-annotated")
         else:
-            t = encode_inferred(by_pos[pos])
+            t = by_pos[pos]
             inferred.append(t)
             why.append("" if t is not None else "inferred-outside-universe")
     try:
@@ -494,23 +575,24 @@ def execute(prep: dict, ax: dict, ay: dict) -> tuple[list[dict], dict[str, int]]
     state = {"stop": False}
 
     def rec(i: int, value: Any) -> Any:
-        if state["stop"]:
-            return value
+        if state["stop"]:           # a finally / loop of the generated function swallowed the stop: stop again
+            raise _Stop()
         if len(events) >= EVENT_CAP:
             state["stop"] = True
             raise _Stop()
         info = nodes[i - 1]
         inf = inferred[i - 1]
         if _too_deep(value):
-            obj, ok = NO_OBJ, False
+            # values that grow in a loop (x = x ** 2, x = x * 2) end the execution before they exhaust the machine
             cnt["skipped:value-too-big"] += 1
-        else:
-            obj = codec.py_to_obj(value)
-            ok = not _has_other(obj)
-            if not ok:
-                obj = {"c": obj["c"], "v": "other", "items": []}
-                if info["k"] != "Constant":
-                    cnt["skipped:value-outside-universe"] += 1
+            state["stop"] = True
+            raise _Stop()
+        obj = codec.py_to_obj(value)
+        ok = not _has_other(obj)
+        if not ok:
+            obj = {"c": obj["c"], "v": "other", "items": []}
+            if info["k"] != "Constant":
+                cnt["skipped:value-outside-universe"] += 1
         judged = ok and inf is not None and info["k"] != "Constant"
         if ok and info["k"] == "Constant":
             cnt["skipped:constant"] += 1
@@ -524,16 +606,27 @@ def execute(prep: dict, ax: dict, ay: dict) -> tuple[list[dict], dict[str, int]]
         return value
 
     def mk(kind: str, arg: int) -> bool:
-        if not state["stop"]:
-            events.append({"k": "s", "site": arg} if kind == "s" else {"k": kind, "loop": arg})
+        if state["stop"] or len(events) >= EVENT_CAP:        # also ends loops that evaluate nothing
+            state["stop"] = True
+            raise _Stop()
+        events.append({"k": "s", "site": arg} if kind == "s" else {"k": kind, "loop": arg})
         return True
 
+    def alarm(signum: int, frame: Any) -> None:
+        state["stop"] = True
+        raise _Stop()
+
     ns: dict[str, Any] = {"__rec__": rec, "__mk__": mk}
+    old_handler = signal.signal(signal.SIGALRM, alarm)
+    signal.setitimer(signal.ITIMER_REAL, 3.0)       # safety net; the event cap and the size cap end every loop earlier
     try:
         exec(prep["code"], ns)
         ns["f"](codec.obj_to_py(ax), codec.obj_to_py(ay))
     except BaseException:  # noqa: BLE001  the program may raise; everything evaluated before still counts
         pass
+    finally:
+        signal.setitimer(signal.ITIMER_REAL, 0)
+        signal.signal(signal.SIGALRM, old_handler)
     return events, cnt
 
 
